@@ -5,17 +5,25 @@ FAMILIES = [
     {"name": "ammdir", "family": "ammdir", "driver": "drv_amm", "n_quick": 1, "n_thorough": 1},
     {"name": "amm", "family": "amm", "driver": "drv_amm", "n_quick": 2500, "n_thorough": 20000, "seeds_thorough": 4},
     {"name": "ammrt", "family": "ammrt", "driver": "drv_amm", "n_quick": 2500, "n_thorough": 20000, "seeds_thorough": 3},
+    # histories WITH unlock records (lock / cancel periods > 0, unlock, cancel, removals that use records up exactly, admin
+    # parameter changes, margin-enabled pools, removal queue on/off): the unlock family of C15 judges the units invariant on
+    # the keeper's own records after every transaction and hook (chk c02.units: pool units = sum of ALL provider records of
+    # the pool) and that an accepted remove-units burns exactly what it says (chk c02.burn)
+    {"name": "unlock", "family": "unlock", "group": "perm", "driver": "drv_unlock", "n_quick": 30000, "n_thorough": 300000, "seeds_thorough": 2},
 ]
 RULE = ("amm: random L1 histories (60 ops each: create/add sym+asym/remove bps+units/swap 3 routes/bucket/epoch/endblock with LPPD and "
         "depth rewards/decommission/policy changes) on the real clp keeper; ammdir: directed histories of DESIGN 4/C02; "
         "after every op the full state is compared with the model and Spec.C01.unitsOK is judged on the implementation's dump; "
+        "unlock (family of C15, lock periods 0..10^6, unlock/cancel/remove/add by 4 providers + a whale in 2 pools, 160 messages per history): "
+        "after every transaction and clp hook Spec.C15.poolUnitsOK (pool units = sum of every provider record of the pool, read from the keeper) "
+        "and Spec.C15.burnOK are judged on the implementation (the provider records are also compared with the C15 model); "
         "non-trivial = a distinct message or hook that succeeded")
 TRUSTED_BASE = [
     "Lean 4.33.0 kernel; axioms propext, Classical.choice, Quot.sound (audited per theorem on every run)",
     "hand-written Lean model of the clp handlers and hooks (lean/Sif/Model/Clp), tied by state-for-state differential execution against the real keeper",
     "Go harness + line protocol + driver parser; x/bank, baseapp cache-context discipline (modelled)",
 ]
-ASSUMPTIONS = ["removal queue disabled and removal lock period 0 in the correspondence histories (pools may be margin-enabled and carry liabilities / custody; liquidity protection on or off, any threshold asset)",
+ASSUMPTIONS = ["removal queue disabled and removal lock period 0 in the amm correspondence histories; the unlock family adds histories with lock periods > 0 and unlock records, where only the provider records (C15 model) are compared and the units invariant is judged as an observation (pools may be margin-enabled and carry liabilities / custody; liquidity protection on or off, any threshold asset)",
                "map iterations modelled in sorted order (order-independence is C09)"]
 UNPROVED = [
     "reachable_units_Statement holds only outside finding F17 (AddLiquidity into a pool with an empty side resets pool units): proved as reachable_units_partial under RunOK",
